@@ -36,6 +36,15 @@ type a6 struct {
 	pre     map[*ssa.Function][]preCond
 	preDone map[*ssa.Function]bool
 	nObl    int
+	onlyPkg string // restrict the bounds scope to one package (C17)
+	rule    string // rule name override
+}
+
+func (a *a6) ruleName() string {
+	if a.rule != "" {
+		return a.rule
+	}
+	return "A6-bounds"
 }
 
 // preCond: an obligation of a helper expressed over its parameters only; proven at call sites.
@@ -80,6 +89,24 @@ func runC05(c *Ctx) {
 }
 
 func (a *a6) scopeFuncs() []*ssa.Function {
+	if a.onlyPkg != "" {
+		var out []*ssa.Function
+		pk := a.p.Pkg(a.onlyPkg)
+		if pk == nil {
+			a.c.AnchorMissing(a.ruleName(), "package "+a.onlyPkg)
+			return nil
+		}
+		for _, f := range a.p.SrcFuncs() {
+			root := f
+			for root.Parent() != nil {
+				root = root.Parent()
+			}
+			if root.Pkg != nil && root.Pkg.Pkg.Path() == pk.PkgPath {
+				out = append(out, f)
+			}
+		}
+		return out
+	}
 	var out []*ssa.Function
 	seen := map[*ssa.Function]bool{}
 	add := func(f *ssa.Function) {
@@ -297,7 +324,7 @@ func (a *a6) bounds() {
 		// functions of internal packages nobody in the module calls cannot receive input
 		if fn.Parent() == nil && fn.Object() != nil && fn.Object().Pkg() != nil && strings.Contains(fn.Object().Pkg().Path(), "/internal/") {
 			if n := p.CallGraph().Nodes[fn]; n == nil || len(n.In) == 0 {
-				c.Pass("A6-bounds", FnName(fn)+":unreachable", p.Pos(fn.Pos()), "internal-package function without any caller in the module")
+				c.Pass(a.ruleName(), FnName(fn)+":unreachable", p.Pos(fn.Pos()), "internal-package function without any caller in the module")
 				continue
 			}
 		}
@@ -316,7 +343,7 @@ func (a *a6) bounds() {
 				return goals
 			})
 			if ok {
-				c.Pass("A6-bounds", okey, pos, "in bounds: entailed by dominating checks")
+				c.Pass(a.ruleName(), okey, pos, "in bounds: entailed by dominating checks")
 				continue
 			}
 			// lift to a precondition over the parameters?
@@ -361,10 +388,10 @@ func (a *a6) bounds() {
 			}
 			if r := findRow(a.rows, "bounds", okey); r != nil {
 				r.used = true
-				c.Pass("A6-bounds", okey, pos, "reviewed: "+r.reason)
+				c.Pass(a.ruleName(), okey, pos, "reviewed: "+r.reason)
 				continue
 			}
-			c.Fail("A6-bounds", okey, pos, fmt.Sprintf("cannot prove %s in bounds in %s: no dominating check implies 0 <= lo <= hi <= len", o.kind, FnName(fn)))
+			c.Fail(a.ruleName(), okey, pos, fmt.Sprintf("cannot prove %s in bounds in %s: no dominating check implies 0 <= lo <= hi <= len", o.kind, FnName(fn)))
 		}
 	}
 	// call-site obligations for lifted preconditions (iterate: proving a precondition may lift again)
@@ -406,7 +433,7 @@ func (a *a6) bounds() {
 						return goals
 					})
 					if ok {
-						c.Pass("A6-bounds", okey, p.Pos(site.Pos()), "helper precondition holds at this call site")
+						c.Pass(a.ruleName(), okey, p.Pos(site.Pos()), "helper precondition holds at this call site")
 						continue
 					}
 					var f0 []cons
@@ -436,15 +463,19 @@ func (a *a6) bounds() {
 					}
 					if r := findRow(a.rows, "bounds", okey); r != nil {
 						r.used = true
-						c.Pass("A6-bounds", okey, p.Pos(site.Pos()), "reviewed: "+r.reason)
+						c.Pass(a.ruleName(), okey, p.Pos(site.Pos()), "reviewed: "+r.reason)
 						continue
 					}
-					c.Fail("A6-bounds", okey, p.Pos(site.Pos()), fmt.Sprintf("helper %s needs %s of its argument to be in bounds (at %s); this call site does not establish it", FnName(f), pc.desc, p.Pos(pc.pos)))
+					c.Fail(a.ruleName(), okey, p.Pos(site.Pos()), fmt.Sprintf("helper %s needs %s of its argument to be in bounds (at %s); this call site does not establish it", FnName(f), pc.desc, p.Pos(pc.pos)))
 				}
 			}
 		}
 	}
-	c.Floor("A6-bounds", total, 250)
+	if a.onlyPkg != "" {
+		c.Floor(a.ruleName(), total, 60)
+	} else {
+		c.Floor(a.ruleName(), total, 250)
+	}
 }
 
 // progress: every loop of the scope whose exit test depends on a cursor (an integer or slice
